@@ -51,10 +51,49 @@ def neutraliser(n, par):
         if isinstance(p, (ast.Call,)) and isinstance(p.func, ast.Name) and p.func.id in ("list", "tuple"):
             cur = p
             continue
+        if isinstance(p, ast.Assign) and len(p.targets) == 1 and isinstance(p.targets[0], ast.Name) and membership_only(p.targets[0].id, p):
+            return "membership-only-via-name"
         if isinstance(p, (ast.Return, ast.Assign, ast.Expr, ast.keyword)):
             return "escapes-unsorted:" + type(p).__name__
         cur = p
     return "unknown"
+
+
+_TREES = {}
+
+
+def all_trees():
+    if not _TREES:
+        for f in sorted(GEN.rglob("*.py")):
+            try:
+                t = ast.parse(f.read_text(encoding="utf-8"))
+            except SyntaxError:
+                continue
+            _TREES[f] = (t, parents(t))
+    return _TREES
+
+
+def membership_only(name, assign):
+    """A container bound once to `name`: every other occurrence of the identifier anywhere under generator/ is the right-hand
+    side of an `in` / `not in` test or an import of the name (then order cannot matter).  Any other use, a second binding or
+    an attribute access `mod.name` that is not a membership test makes this False."""
+    for f, (t, par) in all_trees().items():
+        for n in ast.walk(t):
+            if isinstance(n, ast.Name) and n.id == name:
+                p = par.get(n)
+                if isinstance(n.ctx, ast.Store):
+                    if not (isinstance(p, ast.Assign) and (p.lineno, p.col_offset) == (assign.lineno, assign.col_offset)):
+                        return False
+                    continue
+                if not (isinstance(p, ast.Compare) and all(isinstance(o, (ast.In, ast.NotIn)) for o in p.ops) and n in p.comparators):
+                    return False
+            elif isinstance(n, ast.Attribute) and n.attr == name:
+                p = par.get(n)
+                if not (isinstance(p, ast.Compare) and all(isinstance(o, (ast.In, ast.NotIn)) for o in p.ops) and n in p.comparators):
+                    return False
+            elif isinstance(n, ast.alias) and n.asname == name and n.name != name:
+                return False
+    return True
 
 
 def scan():
